@@ -92,6 +92,9 @@ func TestLargeFiles(t *testing.T) {
 				if pow > 24 && (fi == 1 || off == 4096) {
 					continue
 				}
+				if !h.Thorough() && pow >= 22 && (fi == 1 || off == 0 || off == 4096) {
+					continue // (quick tier: the largest files once below and once above the power)
+				}
 				c := largeCase{Size: 1<<uint(pow) + off, Fill: fill, N: 100 + pow}
 				key, _ := json.Marshal(c)
 				h.R.Case(t, "large", string(key), c, []string{fmt.Sprintf("file-size-around-2^%d", pow)}, true, checkLarge(c))
